@@ -378,6 +378,88 @@ pub async fn op_h11c(fc: char, target: &TargetAddress, segs: &[Vec<u8>]) -> (Str
     (case, out, wire)
 }
 
+async fn read_all_frames(r: &mut Box<dyn crate::common::frames::FrameReader>) -> String {
+    let mut o = String::new();
+    let mut n = 0;
+    loop {
+        match r.read().await {
+            Ok(Some(f)) => {
+                o.push_str(&format!("[{}] ", frame_s(&f)));
+                n += 1;
+                if n > 1000 {
+                    o.push_str("toomany");
+                    return o;
+                }
+            }
+            Ok(None) => {
+                o.push_str("eof");
+                return o;
+            }
+            Err(_) => {
+                o.push_str("err");
+                return o;
+            }
+        }
+    }
+}
+
+/// connector side of UDP over CONNECT with the inline channel: h11c_connect, then every frame the upstream sent
+/// (segs = response head followed by RPFM frames)
+pub async fn op_h11cf(target: &TargetAddress, segs: &[Vec<u8>]) -> (String, String) {
+    let tbl = tbl_s(&[target.clone()], &[]);
+    let case = format!("H11CF {} {} {}", addr_s(target), segs_s(segs), tbl);
+    let contexts: Arc<crate::context::GlobalState> = Default::default();
+    let ctx = contexts.create_context("l".into(), "127.0.0.1:1".parse().unwrap()).await;
+    ctx.write().await.set_target(target.clone()).set_feature(Feature::UdpForward);
+    let (s, _rec) = buffered(segs);
+    let out = guarded(async {
+        let local: SocketAddr = "127.0.0.1:2".parse().unwrap();
+        let remote: SocketAddr = "127.0.0.1:3".parse().unwrap();
+        match crate::common::h11c::h11c_connect(s, ctx.clone(), local, remote, "inline", |_| async { panic!("not supported") }).await {
+            Ok(()) => {
+                let (dummy, _r) = buffered(&[]);
+                ctx.write().await.set_client_frames(frames_from_stream(0, dummy));
+                let (_c, (mut r, _w)) = ctx.write().await.take_frames().unwrap();
+                format!("ok {}", read_all_frames(&mut r).await)
+            }
+            Err(_) => "err".to_string(),
+        }
+    })
+    .await;
+    (case, out)
+}
+
+/// listener side: h11c_handshake on a UDP / inline CONNECT head followed by RPFM frames, the success callback, then
+/// every frame the client sent
+pub async fn op_hhsf(segs: &[Vec<u8>]) -> (String, String) {
+    let tbl = tbl_for_head(segs);
+    let case = format!("HHSF {} {}", segs_s(segs), tbl);
+    let contexts: Arc<crate::context::GlobalState> = Default::default();
+    let ctx = contexts.create_context("l".into(), "127.0.0.1:1".parse().unwrap()).await;
+    let (s, _rec) = buffered(segs);
+    ctx.write().await.set_client_stream(s);
+    let (tx, mut rx) = tokio::sync::mpsc::channel(4);
+    let out = guarded(async {
+        let r = crate::common::h11c::h11c_handshake(ctx.clone(), tx, |_, _| async { Err(easy_error::err_msg("no frames")) }).await;
+        if r.is_err() || rx.try_recv().is_err() {
+            return "err".to_string();
+        }
+        if ctx.read().await.feature() == Feature::TcpForward {
+            return "tcp".to_string();
+        }
+        use crate::context::ContextRefOps;
+        ctx.on_connect().await;
+        let (dummy, _r) = buffered(&[]);
+        ctx.write().await.set_server_frames(frames_from_stream(0, dummy));
+        match ctx.write().await.take_frames() {
+            Some(((mut r, _w), _s)) => format!("ok {}", read_all_frames(&mut r).await),
+            None => "noframes".to_string(),
+        }
+    })
+    .await;
+    (case, out)
+}
+
 pub struct HsResult {
     pub enqueued: bool,
     pub target: TargetAddress,
